@@ -209,7 +209,7 @@ Loc(x) == <<x.row, x.col>>
 \* references, attributes and integers
 SpanFacts(placed, el) ==
   LET sub == {i \in 1..Len(placed) : placed[i].el # <<>> /\ IsPrefix(el, placed[i].el)}
-      firsts == {i \in sub : placed[i].el = el /\ placed[i].role \in {"first", "first+name"}}
+      firsts == {i \in sub : (placed[i].el = el \/ placed[i].el = el \o <<"id">>) /\ placed[i].role \in {"first", "first+name"}}
       names == {i \in sub : placed[i].el = el \o <<"id">>}
       lo == CHOOSE i \in sub : \A j \in sub : i <= j
       hi == CHOOSE i \in sub : \A j \in sub : j <= i
